@@ -30,6 +30,7 @@ defprog! {
       relation r_join(u32, u32) [];
       relation r_join2(u32, u32) [];
       relation r_two(u32, u32, u32) [];
+      relation r_pre(u32, u32) [];
    }
    gens: [("random", gens::random), ("small", gens::small), ("eq_merge", gens::eq_merge)];
    rules: {
@@ -44,6 +45,10 @@ defprog! {
       r_join(x, z) <-- eq(x, y), link(y, z);
       r_join2(z, y) <-- link(z, x), eq(x, y);
       r_two(x, y, z) <-- eq(x, y), eq(y, z), node(z), if x != z;
+      // a variable bound in front of a simple join and used by its second clause only: the join must
+      // not be re-ordered at run time (the twin states the same as a filter, so it cannot share a
+      // planner mistake)
+      r_pre(x, w) <-- for w in [1u32, 2], eq(x, y), link(y, w);
    }
 }
 
@@ -68,6 +73,7 @@ defprog! {
       relation r_join(u32, u32) [];
       relation r_join2(u32, u32) [];
       relation r_two(u32, u32, u32) [];
+      relation r_pre(u32, u32) [];
    }
    gens: [("random", gens::random)];
    rules: {
@@ -84,6 +90,7 @@ defprog! {
       r_join(x, z) <-- eq(x, y), link(y, z);
       r_join2(z, y) <-- link(z, x), eq(x, y);
       r_two(x, y, z) <-- eq(x, y), eq(y, z), node(z), if x != z;
+      r_pre(x, w) <-- eq(x, y), link(y, w), if *w == 1 || *w == 2;
    }
 }
 
@@ -382,6 +389,34 @@ defprog_ser! {
 }
 
 
+// the same without the full-scan reader: there the 3-clause rule (the only one behind the
+// "skip the rule if a body relation is empty" guard) is the only way to some facts, so a wrong
+// emptiness hint of the eqrel views is not masked by another rule deriving the same tuples
+defprog_ser! {
+   name: eq_ser_guarded;
+   positive: true;
+   tags: ["c13", "c14", "byods-ser"];
+   reference: None;
+   rels: {
+      relation pair(u32, u32) [input];
+      relation f(u32, u32) [input];
+      relation node(u32) [input];
+      relation #[ds(ascent_byods_rels::eqrel)] eq(u32, u32) [noio];
+      relation eq_out(u32, u32) [];
+      relation rep(u32, u32) [];
+      relation merged_late(u32, u32) [];
+   }
+   gens: [("eq_merge", gens::eq_merge), ("random", gens::random)];
+   rules: {
+      eq(x, y) <-- pair(x, y);
+      eq(c, d) <-- eq(a, b), f(a, c), f(b, d);
+      eq(c, d) <-- f(a, c), f(b, d), eq(a, b2), node(c), if b == b2;
+      merged_late(x, y) <-- node(x), eq(x, y), f(y, _), if x < y;
+      eq_out(x, y) <-- eq(x, y);
+      rep(x, y) <-- node(x), eq(x, y), if y <= x;
+   }
+}
+
 // ---- 5. the ternary form eq(K, T, T): one equivalence relation per key K. Serial only (the
 //         provider has no concurrent implementation), so these run as the serial baseline share of
 //         C10 and in the histories / deadline strikes of C13 and C14. Facts for one key arrive over
@@ -481,6 +516,7 @@ pub fn all() -> Vec<ProgramDef> {
       trrel_tern::def(),
       trrel_uf_bin::def(),
       eq_ser_history::def(),
+      eq_ser_guarded::def(),
       eq_tern::def(),
       eq_tern_ref::def(),
       eq_congruence::def(),
